@@ -198,8 +198,10 @@ impl Report {
                     let body = json!({"property": self.property, "sig": sig, "msg": v.msg, "count": v.count, "replay": v.replay});
                     let _ = std::fs::write(&path, serde_json::to_string_pretty(&body).unwrap());
                     println!("VIOLATION property={} replay={}", self.property, path.display());
-                    println!("  sig: {sig}");
-                    println!("  msg: {}", v.msg.lines().take(12).collect::<Vec<_>>().join("\n       "));
+                    if unknown <= 40 {
+                        println!("  sig: {sig}");
+                        println!("  msg: {}", v.msg.lines().take(12).collect::<Vec<_>>().join("\n       "));
+                    }
                     vio_summ.push(json!({"sig": sig, "replay": path.display().to_string(), "count": v.count}));
                 }
             }
